@@ -19,9 +19,10 @@ pub const STR_FAULTS: [&str; 30] = [
 ];
 
 /// Ill-typed / ill-formed single statements.
-pub const STMT_FAULTS: [&str; 22] = [
+pub const STMT_FAULTS: [&str; 28] = [
     "PRINT REC", "PRINT 1; REC", "REC = 5", "ZN# = \"a\"", "ZS$ = 5", "ZN# = REC", "ZS$ = REC", "Sb1 \"a\"", "Sb1 1, 2", "Sb1", "SbS 5", "Sb1 ZS$", "SbS ZN#", "Sb1 SARR$(1)", "SbS ARR%(1)",
     "GOTO Nowhere", "GOSUB Nowhere", "ARR%(1) = \"a\"", "SARR$(1) = 5", "REC.N = \"a\"", "REC.S = 5", "CALL Sb1(\"a\")",
+    "SbArr LARR&()", "SbArr SARR$()", "SbArr ZN#", "Sb1 ARR%()", "SbArr REC", "SbArr ARR%(1)",
 ];
 
 /// Statement templates with one numeric expression hole `{e}`; several lines = a block statement.
@@ -86,7 +87,7 @@ pub struct Case {
     pub rows: (u32, u32),
 }
 
-const PRELUDE: [&str; 12] = [
+const PRELUDE: [&str; 13] = [
     "TYPE RT",
     "  N AS INTEGER",
     "  S AS STRING * 4",
@@ -94,6 +95,7 @@ const PRELUDE: [&str; 12] = [
     "DIM SHARED REC AS RT",
     "DIM SHARED ARR%(3)",
     "DIM SHARED SARR$(3)",
+    "DIM SHARED LARR&(3)",
     "DIM SHARED ZN#",
     "DIM SHARED ZS$",
     "DIM SHARED ZW%",
@@ -101,7 +103,10 @@ const PRELUDE: [&str; 12] = [
     "ZS$ = \"a\"",
 ];
 
-const PROCS: [&str; 15] = [
+const PROCS: [&str; 18] = [
+    "SUB SbArr (P%())",
+    "  P%(1) = P%(1) + 1",
+    "END SUB",
     "SUB Sb1 (P%)",
     "  P% = P% + 1",
     "END SUB",
